@@ -123,6 +123,8 @@ func checkBatch(c Case) (kind, what string) {
 	return kind, what
 }
 
+func be32v(b []byte) uint32 { return binary.BigEndian.Uint32(b) }
+
 func profileWith(h [128]byte) []byte {
 	p := build.ICC{Header: h, Tags: []build.ICCTag{{Sig: 0x64657363, Data: build.TextDesc("x"), Share: -1}}}
 	b, _ := p.Bytes()
@@ -203,6 +205,43 @@ func check(c Case) (kind, what string, nt bool) {
 		}
 		if (rerr == nil) != (rerr4 == nil) || (rerr == nil && !reflect.DeepEqual(p.Header, p4.Header)) {
 			return "reader-dependent", fmt.Sprintf("header decoded from a bufio.Reader of %d bytes that had already delivered %d bytes of the stream differs from the one decoded at offset 0: %v / %v (header %s)", size, prefix, rerr4, rerr, c.Header), true
+		}
+	}
+	// ... and from a ProfileReader that is used more than once: first on a stream that has nothing yet (it reports
+	// EOF), then, once the profile has arrived in the same buffer, again; and for two profiles back to back
+	{
+		var p5, p6, p7 *icc.Profile
+		var e0, rerr5, rerr6, rerr7 error
+		h2 := h
+		h2[67] ^= 1 // the second profile differs in its rendering intent
+		h2[47] ^= 0x80
+		data2 := profileWith(h2)
+		if pn, msg := ev.Guard(func() {
+			var buf bytes.Buffer
+			pr := icc.NewProfileReader(&buf)
+			_, e0 = pr.ReadProfile()
+			buf.Write(data)
+			p5, rerr5 = pr.ReadProfile()
+			buf.Write(data)
+			buf.Write(data2)
+			p6, rerr6 = pr.ReadProfile()
+			p7, rerr7 = pr.ReadProfile()
+		}); pn {
+			return "panic", msg, true
+		}
+		if e0 == nil {
+			return "reader-reuse", "ReadProfile on an empty stream reported no error", true
+		}
+		if (rerr == nil) != (rerr5 == nil) || (rerr == nil && !reflect.DeepEqual(p.Header, p5.Header)) {
+			return "reader-reuse", fmt.Sprintf("the same ProfileReader, asked again after the profile had arrived in its (so far empty) stream, gives %v; a fresh reader gives %v (header %s)", rerr5, rerr, c.Header), true
+		}
+		if rerr == nil {
+			if rerr6 != nil || rerr7 != nil || !reflect.DeepEqual(p.Header, p6.Header) {
+				return "reader-reuse", fmt.Sprintf("two profiles back to back through one ProfileReader: errors %v / %v, first header equal=%v (header %s)", rerr6, rerr7, rerr6 == nil && reflect.DeepEqual(p.Header, p6.Header), c.Header), true
+			}
+			if p7.Header.RenderingIntent == p6.Header.RenderingIntent && be32v(h[64:]) <= 3 {
+				return "reader-reuse", fmt.Sprintf("the second of two profiles read through one ProfileReader has the first one's rendering intent (header %s)", c.Header), true
+			}
 		}
 	}
 	if (rerr == nil) != (rerr2 == nil) || (rerr == nil && !reflect.DeepEqual(p.Header, p2.Header)) {
